@@ -173,7 +173,18 @@ class Gen:
             # or bound variable in another
             n = f'n{self.counter}'
         if self.quoted and self.r.random() < 0.3:
-            return '|' + n + (' q' if self.r.random() < 0.5 else '') + '|'
+            c = self.r.random()
+            if c < 0.35:
+                return '|' + n + '|'
+            if c < 0.6:
+                return '|' + n + ' q|'
+            # any printable character but | and \ may occur in a quoted
+            # symbol: one or two of them, without or with a blank
+            pool = ';,:()"\'#[]{}`~!@$%^&*_-+=<>.?/'
+            mid = ''.join(self.r.choice(pool)
+                          for _ in range(self.r.randint(1, 2)))
+            return '|' + self.r.choice([n + mid, mid + n, n[:1] + mid + n[1:],
+                                        n + mid + ' q']) + '|'
         return n
 
     # -- sorts ---------------------------------------------------------
